@@ -303,7 +303,7 @@ pub fn run(tier: Tier, replay: Option<String>) -> i32 {
     let all_entries = entries(&u);
     let tables = field_tables();
     let kinds = um_kinds();
-    c.rule = "(a) every generated typed accessor of every object kind and expansion found by the scan: on a fresh mask after dirty_reset (and through the builder) the setter is called with tape values; the dirty bits (is_bit_dirty), the fields on the wire (SMSG_UPDATE_OBJECT written by the public writer, read back by the wowm model) and the getter must be exactly [offset, offset+width) / the value, with offset and enclosing [offset, offset+size) taken from the table of that name and version in types/update-mask.md (GUID accessors 2 words, others 1); indexed accessors (skill info, visible item): every slot addresses its own stride of the table entry, and the words written for a value with pairwise distinct members are the little-endian bytes of the wowm struct of that name and version, member by member (either half order inside a word of two 16-bit values); accessor instances (plain, indexed slot, inventory slot) that touch a common word without covering exactly the same words: set A, set B, get A must still return A's value (two names for exactly the same words are one field, counted). (b) histories: all sequences to depth 4 over {set f1..f5, dirty_reset, mark_fully_dirty, write} on a representative field set per kind (lowest, block-boundary and highest offsets, one of each signature class) and proptest sequences to length 40, against a model (values map, present set, dirty set, block count) with invariants after every step: getters, is_bit_dirty for every bit, has_any_dirty_fields, and on write: block count, mask blocks = present and dirty, values ascending, decoding a form that carries the TYPE field returns exactly the written fields and re-encodes identically. Non-trivial = history with a write after a dirty operation, or an accessor case; distinct = (expansion, kind, accessor) / (expansion, kind, operation sequence shape).".into();
+    c.rule = "(a) every generated typed accessor of every object kind and expansion found by the scan: on a fresh mask after dirty_reset (and through the builder) the setter is called with tape values; the dirty bits (is_bit_dirty), the fields on the wire (SMSG_UPDATE_OBJECT written by the public writer, read back by the wowm model) and the getter must be exactly [offset, offset+width) / the value, with offset and enclosing [offset, offset+size) taken from the table of that name and version in types/update-mask.md (GUID accessors 2 words, others 1); indexed accessors (skill info, visible item): every slot addresses its own stride of the table entry, and the words written for a value with pairwise distinct members are the little-endian bytes of the wowm struct of that name and version, member by member (either half order inside a word of two 16-bit values); accessor instances (plain, indexed slot, inventory slot) that touch a common word without covering exactly the same words: set A, set B, get A must still return A's value (two plain names for exactly the same words are one field, counted); slot s of an inventory-style accessor is the GUID at words offset + 2s of its table entry. (b) histories: all sequences to depth 4 over {set f1..f5, dirty_reset, mark_fully_dirty, write} on a representative field set per kind (lowest, block-boundary and highest offsets, one of each signature class) and proptest sequences to length 40, against a model (values map, present set, dirty set, block count) with invariants after every step: getters, is_bit_dirty for every bit, has_any_dirty_fields, and on write: block count, mask blocks = present and dirty, values ascending, decoding a form that carries the TYPE field returns exactly the written fields and re-encodes identically. Non-trivial = history with a write after a dirty operation, or an accessor case; distinct = (expansion, kind, accessor) / (expansion, kind, operation sequence shape).".into();
     c.assume("accessors with custom argument types other than the indexed SkillInfo / VisibleItem structs (enum tuples) are counted, not exercised");
     c.assume("the size reported for the mask is observed through the writer's own 'declared size == bytes written' assertion");
     let seed = c.seed;
@@ -610,8 +610,23 @@ pub fn run(tier: Tier, replay: Option<String>) -> i32 {
                     }
                 }
             }
+            // inventory-style accessors: slot s of the enum is the GUID at words [offset + 2s, offset + 2s + 2) of the table entry
+            for (ii, inst) in insts.iter().enumerate() {
+                if let Inst::Slot(name, slot) = inst {
+                    let Some(te) = table.get(&name.to_uppercase()) else { continue };
+                    c.eval();
+                    c.nontrivial(vcommon::fnv(format!("{}|{}|{}|slot{}", k.exp, k.kind, name, slot).as_bytes()));
+                    let want = vec![te.offset + 2 * slot, te.offset + 2 * slot + 1];
+                    if bits_of[ii] != want && reported.insert(format!("{}:{}:{}:slot-words", k.exp, k.kind, name)) {
+                        c.fail(&format!("c13:{}:{}:{}:slot-words", k.exp, k.kind, name), &format!("slot {} of {} touches words {:?}; the table puts {} at {:#x} ({} words), so the slot is {:?}", slot, name, bits_of[ii], name.to_uppercase(), te.offset, te.size, want), json!({"exp": k.exp, "kind": k.kind, "accessor": name, "slot": slot, "table": {"offset": te.offset, "size": te.size}}));
+                    }
+                    if 2 * slot + 2 > te.size && reported.insert(format!("{}:{}:{}:slot-outside-entry", k.exp, k.kind, name)) {
+                        c.fail(&format!("c13:{}:{}:{}:slot-outside-entry", k.exp, k.kind, name), &format!("slot {} of {} lies outside the {} words the table gives {}", slot, name, te.size, name.to_uppercase()), json!({"exp": k.exp, "kind": k.kind, "accessor": name, "slot": slot}));
+                    }
+                }
+            }
             for (a, b) in pairs {
-                if bits_of[a] == bits_of[b] {
+                if bits_of[a] == bits_of[b] && matches!((&insts[a], &insts[b]), (Inst::Basic(..), Inst::Basic(..))) {
                     // the table lists two names at the same offset with the same width (OBJECT_CREATED_BY and the first
                     // GUID field of a kind): one field with two names, `last set for its field` is well defined
                     c.count("two_accessor_names_for_exactly_the_same_words_not_judged");
